@@ -440,8 +440,9 @@ class Network(Cached):
         :type edge_list: array-like [[int>=0,int>=0]]
         :arg  edge_list: [[i,j]] for edges i -> j
         """
-        #  Convert to Numpy array and get number of nodes
-        edges = np.array(edge_list)
+        #  Convert to Numpy array (also for an empty list) and get number of
+        #  nodes
+        edges = np.array(edge_list, dtype=int).reshape(-1, 2)
 
         if n_nodes is None:
             N = edges.max() + 1
@@ -622,8 +623,8 @@ class Network(Cached):
         #  Get directedness
         directed = graph.is_directed()
 
-        #  Extract edge list
-        edges = np.array(graph.get_edgelist())
+        #  Extract edge list (also of a graph without edges)
+        edges = np.array(graph.get_edgelist(), dtype=int).reshape(-1, 2)
 
         #  Symmetrize if undirected network
         if not directed:
